@@ -42,7 +42,8 @@ def gen_cases(ctx, maxops, lines_out, par=False):
 
 def mismatches(txt):
     out = []
-    for m in re.finditer(r'<<"MISMATCH", (\d+), "([^"]+)">>', txt):
+    # TLC wraps long tuples over several lines
+    for m in re.finditer(r'<<\s*"MISMATCH",\s*(\d+),\s*"([^"]+)"\s*>>', txt):
         out.append((int(m.group(1)), m.group(2)))
     return out
 
@@ -110,6 +111,8 @@ def run(ctx):
         mode, pr, path = j[0], j[1], j[2]
         evs = vlib.read_jsonl(path)
         mm = mismatches(v["text"])
+        if len(mm) != v["text"].count('"MISMATCH"'):
+            raise vlib.Inconclusive("unparsed MISMATCH lines in the TLC output of %s" % path)
         if not v["accepted"] and not mm and v["matched"] is None:
             raise vlib.Inconclusive("trace validation of %s did not complete:\n%s" % (path, v["text"][-1500:]))
         ctx.cov["states"] += v["distinct"]; ctx.cov["transitions"] += v["generated"]
